@@ -110,7 +110,7 @@ def _cds_case(repo, it, S, spec):
     n += 1
     k, v = run(it, q("chunk_relative_codon_locations"), [], {}, part)
     if k != "ok":
-        if want or v in ("AttributeError", "IndexError", "KeyError", "TypeError", "RecursionError"):
+        if want or inside_any or v in ("AttributeError", "IndexError", "KeyError", "TypeError", "RecursionError"):
             out.append(("chunk codons " + cat + " raises", f"{desc}: chunk_relative_codon_locations raises {v}; codons fully inside the chunk: {want}", q("chunk_relative_codon_locations").qual))
     else:
         got = [[to_chrom(p) for p in loc_positions(c)] for c in v]
@@ -124,7 +124,7 @@ def _cds_case(repo, it, S, spec):
         sv = v.fields["sequence"] if isinstance(v, Obj) else v
         if sv != wseq:
             out.append(("chunk coding sequence " + cat, f"{desc}: extract_sequence on the chunk = {sv!r}; codons inside the chunk spell {wseq!r}", q("extract_sequence").qual))
-    elif wseq or v in ("AttributeError", "IndexError", "KeyError", "TypeError"):
+    elif wseq or inside_any or v in ("AttributeError", "IndexError", "KeyError", "TypeError"):
         out.append(("chunk coding sequence " + cat + " raises", f"{desc}: extract_sequence on the chunk raises {v}; expected {wseq!r}", q("extract_sequence").qual))
     # chunk-relative frames: every chunk-relative block is annotated with the frame the uninterrupted reading frame has at
     # its 5' end (5' by the direction of the CDS)
